@@ -8,6 +8,10 @@ working tree and writes coq/C15/gen/Facts.v:
       coq/C15/FactsModel.v (SThrowIf cond | SCopyOutIf/SCopyInIf guard offset count | SAdvance e |
       SPtr offset | SView offset count | SReturn | SUnknown) with the conditions as expression trees over
       cursor, the size parameter and buffer->size() (local const variables are inlined)
+  gen_vec_read / gen_str_read : list rstmt
+      statement shape of operator>>(ReadStream&, std::vector<T>&) and operator>>(ReadStream&, std::string&):
+      RReadLen (buf >> sz) | RResize (rh.resize(sz)) | RReserve | RClear | RFillLoop (for (i < sz) buf >> rh[i]) |
+      RAppendLoop (for (i < sz) { T x; buf >> x; rh.push_back(x); }) | RReadBytes (buf.read(rh.data(), sz)) | RReturn
   gen_end : bx, gen_available / gen_capacity : sx      BufferReader::end, FixedBufferWriter::available/capacity
   gen_prefix : list (N * Z)        byte width of the length variable streamed first by
       1 vector<<  2 vector>>  3 AbstractArray<<  4 string<<  5 const char*<<  6 string>>
@@ -111,6 +115,9 @@ def sx(n, env):
         return "XCursor"
     if is_buffer_call(n, "size"):
         return "XBufSize"
+    if k == "CXXMemberCallExpr" and inner(n) and inner(n)[0].get("kind") == "MemberExpr" and len(inner(n)) == 1 \
+            and inner(n)[0].get("name") in INLINE and strip(inner(inner(n)[0])[0]).get("kind") == "CXXThisExpr":
+        return INLINE[inner(n)[0]["name"]]          # capacity() / available() of the same object
     if k == "DeclRefExpr":
         i, kind, _ = refid(n)
         if i in env.size_params:
@@ -262,6 +269,7 @@ def method(docs, cls, name, want_body=True, pred=None):
 
 
 CLASS_IDS = {}
+INLINE = {}
 
 
 def index_classes(docs):
@@ -321,6 +329,104 @@ def prefix_width(fn):
     return 0
 
 
+def read_shape(fn):
+    """statement shape of operator>>(ReadStream&, std::vector<T>&) / (ReadStream&, std::string&)"""
+    if fn is None:
+        return ["RUnknown"]
+    ps = params(fn)
+    if len(ps) != 2:
+        return ["RUnknown"]
+    buf_id, rh_id = ps[0]["id"], ps[1]["id"]
+    szvar = [None]
+
+    def is_ref(n, i):
+        n = strip(n)
+        return n.get("kind") == "DeclRefExpr" and refid(n)[0] == i
+
+    def member_call(n):
+        """(object id, method, explicit args) of obj.method(args)"""
+        n = strip(n)
+        if n.get("kind") != "CXXMemberCallExpr":
+            return None
+        me = inner(n)[0]
+        if me.get("kind") != "MemberExpr":
+            return None
+        obj = strip(inner(me)[0]) if inner(me) else {}
+        oid = refid(obj)[0] if obj.get("kind") == "DeclRefExpr" else None
+        return oid, me.get("name"), [a for a in inner(n)[1:] if a.get("kind") != "CXXDefaultArgExpr"]
+
+    def stream_into(n):
+        """buf >> X : returns the stripped X, else None"""
+        n = strip(n)
+        if n.get("kind") != "CXXOperatorCallExpr" or len(inner(n)) != 3:
+            return None
+        if refid(strip(inner(n)[0]))[2] != "operator>>" or not is_ref(inner(n)[1], buf_id):
+            return None
+        return strip(inner(n)[2])
+
+    def loop(f):
+        parts = f["inner"]
+        init, cond, inc, b = parts[0], parts[2], parts[3], parts[4]
+        iv = [v for v, _ in walk(init) if v.get("kind") == "VarDecl"] if init else []
+        if len(iv) != 1 or not inner(iv[0]) or strip(inner(iv[0])[-1]).get("value") != "0":
+            return "RUnknown"
+        i = iv[0]["id"]
+        c = strip(cond) if cond else {}
+        if c.get("opcode") != "<" or not is_ref(inner(c)[0], i) or not is_ref(inner(c)[1], szvar[0]):
+            return "RUnknown"
+        u = strip(inc) if inc else {}
+        if u.get("kind") != "UnaryOperator" or u.get("opcode") != "++" or not is_ref(inner(u)[0], i):
+            return "RUnknown"
+        bs = inner(b) if b.get("kind") == "CompoundStmt" else [b]
+        if len(bs) == 1:
+            x = stream_into(bs[0])
+            if x is not None and x.get("kind") == "CXXOperatorCallExpr" and refid(strip(inner(x)[0]))[2] == "operator[]" \
+                    and is_ref(inner(x)[1], rh_id) and is_ref(inner(x)[2], i):
+                return "RFillLoop"
+            return "RUnknown"
+        if len(bs) == 3 and bs[0].get("kind") == "DeclStmt":
+            tmp = [v for v in inner(bs[0]) if v.get("kind") == "VarDecl"]
+            x = stream_into(bs[1])
+            mc = member_call(bs[2])
+            if len(tmp) == 1 and x is not None and is_ref(x, tmp[0]["id"]) and mc and mc[0] == rh_id and \
+                    mc[1] in ("push_back", "emplace_back") and len(mc[2]) == 1 and \
+                    any(m.get("kind") == "DeclRefExpr" and refid(m)[0] == tmp[0]["id"] for m, _ in walk(mc[2][0])):
+                return "RAppendLoop"
+        return "RUnknown"
+
+    out = []
+    for s in inner(body_of(fn)):
+        k = s.get("kind")
+        if k == "DeclStmt":
+            vs = [v for v in inner(s) if v.get("kind") == "VarDecl"]
+            if len(vs) == 1 and not inner(vs[0]) and szvar[0] is None:
+                szvar[0] = vs[0]["id"]
+                continue
+            out.append("RUnknown"); continue
+        if k == "ForStmt":
+            out.append(loop(s)); continue
+        if k == "ReturnStmt":
+            out.append("RReturn"); continue
+        x = stream_into(s)
+        if x is not None:
+            out.append("RReadLen" if is_ref(x, szvar[0]) else "RUnknown"); continue
+        mc = member_call(s)
+        if mc:
+            oid, name, args = mc
+            if oid == rh_id and name == "resize" and len(args) == 1 and is_ref(args[0], szvar[0]):
+                out.append("RResize"); continue
+            if oid == rh_id and name == "reserve" and len(args) == 1:
+                out.append("RReserve"); continue
+            if oid == rh_id and name == "clear" and not args:
+                out.append("RClear"); continue
+            if oid == buf_id and name == "read" and len(args) == 2 and is_ref(args[1], szvar[0]):
+                d = member_call(strip(args[0]))
+                if d and d[0] == rh_id and d[1] == "data":
+                    out.append("RReadBytes"); continue
+        out.append("RUnknown")
+    return out
+
+
 def functions(docs, name):
     for d in docs:
         for n, ps in walk(d):
@@ -339,6 +445,11 @@ def main(argv):
     docs = dump(repo, work)
     index_classes(docs)
     facts = {}
+    INLINE.clear()
+    for nm in ("capacity", "available"):
+        e = ret_expr(method(docs, "FixedBufferWriter", nm), "x")
+        if "XUnknown" not in e:
+            INLINE[nm] = e
     facts["gen_read"] = extract_body(method(docs, "BufferReader", "read"))
     facts["gen_view"] = extract_body(method(docs, "BufferReader", "getView",
                                             pred=lambda n: "unsigned char" in n.get("type", {}).get("qualType", "")))
@@ -355,19 +466,21 @@ def main(argv):
             ty = fn.get("type", {}).get("qualType", "")
             if "enable_if" in ty and re.search(r"enable_if<\s*!\s*(detail::)?is_abstract_array<T>::value", ty):
                 guard = True
-            if "<T>" in ty or "T &" in ty:
-                continue                                   # template pattern, not an instantiation
+            tpl = ps[-1] if ps and ps[-1].get("kind") == "FunctionTemplateDecl" else None
+            pat = ty
+            if tpl is not None:
+                pats = [c for c in inner(tpl) if c.get("kind") == "FunctionDecl"]
+                pat = pats[0].get("type", {}).get("qualType", "") if pats else ""
+                if fn is pats[0] or "<T>" in ty or "T &" in ty:
+                    continue                               # the template pattern itself, not an instantiation
             if name == "operator<<":
-                if "const std::vector<int> &" in ty and "enable_if" not in ty: sel[1] = fn
-                elif "AbstractArray<int> &" in ty: sel[3] = fn
-                elif "const std::string &" in ty: sel[4] = fn
-                elif "const char *" in ty: sel[5] = fn
+                if tpl is not None and "const std::vector<T> &" in pat: sel[1] = fn
+                elif tpl is not None and "AbstractArray<T> &" in pat: sel[3] = fn
+                elif tpl is None and "const std::string &" in ty: sel[4] = fn
+                elif tpl is None and "const char *" in ty: sel[5] = fn
             else:
-                if "std::vector<int> &" in ty and not any(p.get("name") == "operator>>" and p.get("kind") == "FunctionTemplateDecl" and
-                                                         "vector" not in (inner(p)[-1].get("type", {}).get("qualType", "") if inner(p) else "")
-                                                         for p in ps[-1:]):
-                    if any("resize" == m.get("name") for m, _ in walk(fn)): sel[2] = fn
-                elif "std::string &" in ty and "basic_string" not in ty: sel[6] = fn
+                if tpl is not None and "std::vector<T> &" in pat: sel[2] = fn
+                elif tpl is None and "std::string &" in ty: sel[6] = fn
     prefix = [(k, prefix_width(sel[k])) for k in sorted(sel)]
     # overload selection for the derived static types
     names = {"w_own": 1, "w_fix": 2, "w_view": 3, "w_fview": 4}
@@ -389,6 +502,8 @@ def main(argv):
             "Import ListNotations.", "Local Open Scope Z_scope.", ""]
     for k in ("gen_read", "gen_view", "gen_fwrite", "gen_freserve"):
         text.append("Definition %s : list stmt :=\n  [%s]." % (k, ";\n   ".join(facts[k])))
+    text.append("Definition gen_vec_read : list rstmt := [%s]." % "; ".join(read_shape(sel[2])))
+    text.append("Definition gen_str_read : list rstmt := [%s]." % "; ".join(read_shape(sel[6])))
     text.append("Definition gen_end : bx := %s." % gen_end)
     text.append("Definition gen_available : sx := %s." % gen_avail)
     text.append("Definition gen_capacity : sx := %s." % gen_cap)
@@ -411,6 +526,7 @@ def unknown_text():
     return ("From Coq Require Import ZArith NArith List.\nFrom C15 Require Import FactsModel.\nImport ListNotations.\n"
             "Definition gen_read : list stmt := [SUnknown].\nDefinition gen_view : list stmt := [SUnknown].\n"
             "Definition gen_fwrite : list stmt := [SUnknown].\nDefinition gen_freserve : list stmt := [SUnknown].\n"
+            "Definition gen_vec_read : list rstmt := [RUnknown].\nDefinition gen_str_read : list rstmt := [RUnknown].\n"
             "Definition gen_end : bx := BUnknown.\nDefinition gen_available : sx := XUnknown.\nDefinition gen_capacity : sx := XUnknown.\n"
             "Definition gen_prefix : list (N * Z) := [].\nDefinition gen_guard : bool := false.\nDefinition gen_overload : list (N * bool) := [].\n")
 
